@@ -41,8 +41,8 @@ let do_sbuf lens =
 (* sv cmd=<w|w!|wq|wq!|x|x!|xa|xa!|q|q!> rng=<b,e|-> tgt=<own|other> text=<hex> dirty=<0|1> own=<absent|hex> ownm=<n>
       rec=<n> other=<absent|hex> otherm=<n> sched=<o|e|sK,...|->
       [pre=<name@tgt@rng;...>]   earlier commands of the same session: name w | w! | pipe (= :w !cmd), rng b,e or -
-      [gtext=<hex> gdirty=<0|1> g=<absent|hex> gm=<n> grec=<n>]   a second buffer (bufs[1]) on path 2
-   -> q=<0|1> st=<ok|refused|failed> dirty=<0|1: some buffer is modified> own=<hex|absent> other=<hex|absent> g=<hex|absent>
+      [nb=<k> b<i>text=<hex> b<i>dirty=<0|1> b<i>file=<absent|hex> b<i>m=<n> b<i>rec=<n> for i < k]   bufs[1..k] on paths 2..k+1
+   -> q=<0|1> st=<ok|refused|failed> dirty=<0|1: some buffer is modified> own=<hex|absent> other=<hex|absent> gs=<hex|absent>;...
       used=<calls consumed> *)
 let do_sv kvs =
   let get k = try List.assoc k kvs with Not_found -> "-" in
@@ -50,14 +50,16 @@ let do_sv kvs =
   let cmd = get "cmd" in
   let has c = String.contains cmd c in
   let file k m = if get k = "absent" || not (has_key k) then [] else [(bytes_of_hex (get k), z_of_int (int_of_string (get m)))] in
-  let two = S (S O) in
+  let nb = if has_key "nb" then int_of_string (get "nb") else 0 in
+  let ks = List.init nb (fun i -> i) in
+  let bk i k = Printf.sprintf "b%d%s" i k in
   let fs = List.map (fun f -> (O, f)) (file "own" "ownm") @ List.map (fun f -> (S O, f)) (file "other" "otherm")
-           @ List.map (fun f -> (two, f)) (file "g" "gm") in
+           @ List.concat (List.map (fun i -> List.map (fun f -> (nat_of_int (i + 2), f)) (file (bk i "file") (bk i "m"))) ks) in
   let bf = { b_lines = split_lines (bytes_of_hex (get "text")); b_path = O; b_mtime = z_of_int (int_of_string (get "rec"));
              b_dirty = (get "dirty" = "1") } in
-  let others = if has_key "gtext" then
-      [{ b_lines = split_lines (bytes_of_hex (get "gtext")); b_path = two; b_mtime = z_of_int (int_of_string (get "grec"));
-         b_dirty = (get "gdirty" = "1") }] else [] in
+  let others = List.map (fun i ->
+      { b_lines = split_lines (bytes_of_hex (get (bk i "text"))); b_path = nat_of_int (i + 2);
+        b_mtime = z_of_int (int_of_string (get (bk i "rec"))); b_dirty = (get (bk i "dirty") = "1") }) ks in
   let sch = List.map (fun w -> if w = "o" then OOk else if w = "e" then OErr
                         else OShort (nat_of_int (int_of_string (String.sub w 1 (String.length w - 1))))) (split_on ',' (get "sched")) in
   let now = z_of_int 200 in
@@ -76,9 +78,10 @@ let do_sv kvs =
       let ((((q, st), bufs'), fs'), r) = ec_quit now (cmd.[0] = 'w' || cmd.[0] = 'x') (cmd.[0] = 'x') (has 'a') (has '!') (bf :: others) fs sch in
       (q, st, bufs', fs', r) in
   let show p = match fs_content fs' p with Some c -> hex_of_bytes c | None -> "absent" in
-  pr "q=%d st=%s dirty=%d own=%s other=%s g=%s used=%d\n" (if q then 1 else 0)
+  pr "q=%d st=%s dirty=%d own=%s other=%s gs=%s used=%d\n" (if q then 1 else 0)
     (match st with SOk -> "ok" | SRefused -> "refused" | SFailed -> "failed")
-    (if List.exists (fun b -> b.b_dirty) bufs' then 1 else 0) (show O) (show (S O)) (show two) (List.length sch - List.length r)
+    (if List.exists (fun b -> b.b_dirty) bufs' then 1 else 0) (show O) (show (S O))
+    (if nb = 0 then "-" else String.concat ";" (List.map (fun i -> show (nat_of_int (i + 2))) ks)) (List.length sch - List.length r)
 
 let () =
   iter_lines (fun l ->
